@@ -121,7 +121,7 @@ class PGWorld(World):
             k["accelerate"] = rng.random() < 0.5
             K = rng.choice([5, 12, 30, 60, 120, 200])
         else:
-            k["steps"] = rng.choice(["scalar", "scalar", "array"])
+            k["steps"] = rng.choice(["scalar", "scalar", "array", "array", "tau_scalar_sigma_array", "tau_array_sigma_scalar"])
             k["sigma_rel"] = float(10 ** rng.uniform(-1, 1))
             k["c"] = rng.choice([1.0, 0.9])
             opts = ["none", "none", "dual"]
@@ -135,6 +135,9 @@ class PGWorld(World):
                 k["sigma_rel"] = float(10 ** rng.uniform(-0.5, 0.5))
             K = 2000 if k["long"] else rng.choice([5, 12, 30, 60, 120])
         plan["K"] = K
+        # the caller may drive the object for more updates than max_iter (a plain
+        # for-loop over update()): the trajectory must not depend on max_iter
+        plan["max_iter"] = rng.choice([K + 5, K + 5, K + 5, max(1, K // 2), min(K, 3), K])
         sched = []
         dense_queries = K <= 60
         for i in range(K):
@@ -285,7 +288,7 @@ class PGWorld(World):
             use_prox = not (gk == "none" and plan["seed"] % 2 == 0)
             alg = common.lib_call("GradientMethod.__init__", -1, GradientMethod, gradf, x_caller, alpha,
                                   proxg=proxg if use_prox else None,
-                                  accelerate=k["accelerate"], max_iter=plan["K"] + 5, tol=0)
+                                  accelerate=k["accelerate"], max_iter=plan.get("max_iter", plan["K"] + 5), tol=0)
             site = "GradientMethod"
             STATE = GM_STATE
             Fprev = [prob.F(x0)]
@@ -341,8 +344,19 @@ class PGWorld(World):
                     raise Discard("zero_row_or_column")
                 T = k["c"] / colsum
                 S = 1.0 / rowsum
-                tau_arg = T.reshape(xshape).copy()
-                sigma_arg = S.reshape(ushape).copy()
+                # mixed layouts keep the Pock-Chambolle condition: a scalar step is the
+                # smallest entry of the corresponding diagonal preconditioner
+                if k["steps"] == "tau_scalar_sigma_array":
+                    T = np.full(n, float(np.min(T)))
+                    tau_arg = float(T[0])
+                    sigma_arg = S.reshape(ushape).copy()
+                elif k["steps"] == "tau_array_sigma_scalar":
+                    S = np.full(m, float(np.min(S)))
+                    tau_arg = T.reshape(xshape).copy()
+                    sigma_arg = float(S[0])
+                else:
+                    tau_arg = T.reshape(xshape).copy()
+                    sigma_arg = S.reshape(ushape).copy()
             gam = k["gamma"]
             gp = lam if gam in ("primal", "both") else 0
             gd = 1 if gam in ("dual", "both") else 0
@@ -383,12 +397,14 @@ class PGWorld(World):
             proxfc = common.Proxy("proxfc", proxfc_raw, ret, stats, interfere=itf)
             alg = common.lib_call("PrimalDualHybridGradient.__init__", -1, PrimalDualHybridGradient,
                                   proxfc, proxg, Acb, AHcb, x_caller, u_caller, tau_arg, sigma_arg,
-                                  gamma_primal=gp, gamma_dual=gd, max_iter=plan["K"] + 5, tol=0)
+                                  gamma_primal=gp, gamma_dual=gd, max_iter=plan.get("max_iter", plan["K"] + 5), tol=0)
             site = "PrimalDualHybridGradient"
             STATE = PD_STATE
-            if isinstance(tau_arg, np.ndarray) and not accel:
-                ledger.own("tau", tau_arg)
-                ledger.own("sigma", sigma_arg)
+            if not accel:
+                if isinstance(tau_arg, np.ndarray):
+                    ledger.own("tau", tau_arg)
+                if isinstance(sigma_arg, np.ndarray):
+                    ledger.own("sigma", sigma_arg)
             Mc = M.astype(np.complex128)
             d_init = float(np.linalg.norm(x0.ravel() - xs.ravel()) + np.linalg.norm(u0.ravel() - us.ravel()))
             sscale = float(np.linalg.norm(xs) + np.linalg.norm(us) + np.linalg.norm(y) + 1e-3)
@@ -439,8 +455,8 @@ class PGWorld(World):
                 if kk <= 40 or kk % 250 == 0:
                     trace.append({"a": "U", "k": kk, "ex": codec.fnum(np.linalg.norm(xk - xs.ravel()) / sscale, 5)})
             outs = [x_caller, u_caller]
-            if isinstance(tau_arg, np.ndarray) and accel:
-                outs += [tau_arg, sigma_arg]
+            if accel and (isinstance(tau_arg, np.ndarray) or isinstance(sigma_arg, np.ndarray)):
+                outs += [a_ for a_ in (tau_arg, sigma_arg) if isinstance(a_, np.ndarray)]
                 stats["probes.pdhg_array_steps_rescaled_in_place"] += 1
 
         stats["steps"] += 1
@@ -477,6 +493,7 @@ class PGWorld(World):
         res.fingerprint = codec.json_digest([
             k["alg"], cplx, gk, k["family"], k["form"], k["ret"], bool(k.get("interfere")), bool(k.get("iterprox")), k.get("Aalias"), n, m, k["start"], k.get("c"),
             k.get("accelerate"), k.get("steps"), k.get("gamma"), k.get("long"), plan["K"],
+            plan.get("max_iter", 0) < plan["K"],
             round(np.log10(plan["lam"])), round(2 * np.log10(k.get("sigma_rel", 1.0))),
             common.compress_actions(acts)[:40],
         ])
@@ -529,8 +546,12 @@ class PGWorld(World):
             p["lam"] = round(plan["lam"], digits + 1) or plan["lam"]
             if p != plan:
                 yield p
-        if k.get("steps") == "array":
+        if k.get("steps") not in (None, "scalar"):
             yield mod(steps="scalar")
+        if plan.get("max_iter", plan["K"] + 5) != plan["K"] + 5:
+            p = copy.deepcopy(plan)
+            p["max_iter"] = plan["K"] + 5
+            yield p
         if k.get("gamma") not in (None, "none"):
             yield mod(gamma="none")
         if k.get("gkind") != "none":
